@@ -154,10 +154,14 @@ class Engine:
                         yield p
 
     # -- one request ---------------------------------------------------------------------------------
-    def request(self, tree, op):
-        """('ok', canonical) or ('fail', exception type name)"""
+    def request(self, tree, op, T=None):
+        """('ok', canonical) or ('fail', exception type name).  T: the pymoca.tree module instance for plain flatten
+        requests (procs.tree_module: the run's own for the shared tree, a pristine one for the reference); the backends
+        are bound to the shared module."""
         import pymoca.ast as A
-        import pymoca.tree as T
+
+        if T is None:
+            import pymoca.tree as T
 
         try:
             if op["op"] == "flatten":
@@ -214,9 +218,10 @@ class Engine:
             pk, classes, _txt = lib
             shared = pickle.loads(pk)
             before = []
+            sut_tree_mod = procs.tree_module()  # this run is one simulated process
             for opi, op in enumerate(plan["ops"]):
-                got = self.request(shared, op)
-                want = self.request(pickle.loads(pk), op)
+                got = self.request(shared, op, sut_tree_mod)
+                want = self.request(pickle.loads(pk), op, procs.tree_module())
                 log.add(opi, 0, op["op"], "%s %s %s" % (op["class"], got[0], want[0]))
                 counts["requests"] = counts.get("requests", 0) + 1
                 if want[0] == "fail":
